@@ -34,7 +34,9 @@ type CarrierCase struct {
 	Size   int          `json:"size"`
 	Parts  int          `json:"parts"`
 	Seed   int64        `json:"seed"`
-	Reuse  bool         `json:"reuse"` // head on a queued channel: the sender is held back, the caller overwrites its buffers right after Write returned
+	Reused bool         `json:"reused"` // steal: wrap the scripted reader so that its WriteTo re-uses one buffer (io.MultiReader)
+	Via    string       `json:"via"`    // steal: "steal" (utils.StealBytes) or "tobytes" (utils.ToBytes)
+	Reuse  bool         `json:"reuse"`  // head on a queued channel: the sender is held back, the caller overwrites its buffers right after Write returned
 }
 
 // heldExecutor starts what it is given only once released.
@@ -55,6 +57,8 @@ type CarrierEvent struct {
 	N      int          `json:"n"`
 	Err    string       `json:"err"`
 	Bytes  []int        `json:"bytes"`
+	Reused bool         `json:"reused"` // steal: the WriterTo writes every chunk from one re-filled buffer
+	Exact  bool         `json:"exact"`  // steal: the collected bytes are exactly the source's content
 }
 
 type CarrierResult struct {
@@ -261,6 +265,52 @@ func runCarrierCase(c *CarrierCase) *CarrierResult {
 		}
 		res.Events = append(res.Events, ev)
 		ch.Close(nil)
+	case "steal":
+		upto := 0
+		for _, it := range c.Script {
+			upto += it.N
+			if it.Err != "nil" {
+				break
+			}
+		}
+		src := &scriptReader{items: append([]ScriptItem(nil), c.Script...), seed: c.Seed}
+		var wt io.WriterTo
+		if c.Reused {
+			// io.MultiReader's WriteTo copies through one buffer that it fills again for every Read
+			wt = io.MultiReader(src).(io.WriterTo)
+		} else {
+			// every chunk is a slice of its own
+			var parts [][]byte
+			all := content(c.Seed, upto)
+			off := 0
+			for _, it := range c.Script {
+				if it.N > 0 {
+					parts = append(parts, append([]byte(nil), all[off:off+it.N]...))
+					off += it.N
+				}
+				if it.Err != "nil" {
+					break
+				}
+			}
+			wt = multiWriterTo{parts}
+		}
+		var got []byte
+		var err error
+		if c.Via == "tobytes" {
+			got, err = utils.ToBytes(wt)
+		} else {
+			got, err = utils.StealBytes(wt)
+		}
+		want := content(c.Seed, upto)
+		ev := CarrierEvent{Op: "steal", Script: c.Script, N: len(got), Err: errClass(err), Writes: []int{}, Bytes: []int{}, Reused: c.Reused, Exact: bytes.Equal(got, want)}
+		if err != nil || !ev.Exact {
+			how := "chunks that are slices of their own"
+			if c.Reused {
+				how = "an io.WriterTo that writes every chunk from one re-filled buffer (io.MultiReader over a fragmenting reader)"
+			}
+			fail("steal-bytes/"+c.Via, fmt.Sprintf("utils.%s over %s, reader script %v: returned %d bytes (err %v) that are not the %d bytes of the source", map[string]string{"tobytes": "ToBytes", "": "StealBytes", "steal": "StealBytes"}[c.Via], how, c.Script, len(got), err, upto))
+		}
+		res.Events = append(res.Events, ev)
 	case "bytereader":
 		r := &scriptReader{items: append([]ScriptItem(nil), c.Script...), seed: c.Seed}
 		br := utils.NewByteReader(r)
